@@ -91,7 +91,7 @@ Definition oracle_C09 (x : case) : bool :=
                                                    || (len (m_payload m) =? 1)) ms
                     | None => false
                     end) per_stream
-  && (if has_io_error ops then true
+  && (if has_io_error ops || existsb (fun ob => existsb (fun o => match o with SHDropped _ => true | _ => false end) (fst ob)) obs then true
       else is_prefix_blocks (flat_map (fun r => match r with Some ms => flat_map m_payload ms | None => [] end) per_stream) (queued ops)).
 
 Definition oracle (x : case) : bool := oracle_C09 x.
